@@ -133,3 +133,9 @@ Definition ex_mix_a : list val := [VZ 0; VT [VZ 4]; VT [VZ 2; VZ 3]].
 Lemma ex_mix_wft : let t := tr_of ex_mix ex_mix_a in
   wft ex_mix t /\ length (t_args t) = S (gfs_len (GCons (GDist 1) (GCons ex_kernel GNil))) /\ length (t_choices t) = 2%nat.
 Proof. split; [apply (sim_wft _ ex_k ex_mix_a); vm_compute; reflexivity | split; vm_compute; reflexivity]. Qed.
+
+(* an IndexRequest on the vmap witness: element 1 alone is updated *)
+Lemma ex_vmap_index_edit_succeeds :
+  exists t' w b, edit ex_vmap ex_k2 (tr_of ex_vmap ex_vmap_a) (RIndex 1 (RUpdate [([KS 0%nat], VZ 9)])) (t_args (tr_of ex_vmap ex_vmap_a)) [TgLeaf false; TgLeaf false]
+                 = Ok (t', w, b) /\ t' <> tr_of ex_vmap ex_vmap_a /\ w <> 0.
+Proof. vm_compute. eexists _, _, _. split; [reflexivity|]. split; [intros E; discriminate | intros E; discriminate]. Qed.
